@@ -162,7 +162,9 @@ func AddStandardFilters(fd FilterDictionary) { //nolint: gocyclo
 		if len(s) == 0 {
 			return s
 		}
-		return strings.ToUpper(s[:1]) + s[1:]
+		// upper-case the first character, which may be longer than one byte
+		r, size := utf8.DecodeRuneInString(s)
+		return string(unicode.ToUpper(r)) + s[size:]
 	})
 	fd.AddFilter("downcase", func(s, suffix string) string {
 		return strings.ToLower(s)
